@@ -54,7 +54,7 @@ pub fn run(args: &Args) -> Report {
       r
     }
     "C03" => {
-      let mut r = with_exhaustive(wf::run_classes("C03", t, s, &[CP { name: "pure-exact", n: 3000 * scale }, CP { name: "pure-mixed", n: 4000 * scale }, CP { name: "mixed-any", n: 4000 * scale }, CP { name: "pure-soak-any", n: 15 * scale }], replay.clone()), "C03", t, s, &replay);
+      let mut r = with_exhaustive(wf::run_classes("C03", t, s, &[CP { name: "pure-exact", n: 3000 * scale }, CP { name: "pure-mixed", n: 4000 * scale }, CP { name: "mixed-any", n: 4000 * scale }, CP { name: "pure-soak-any", n: 15 * scale }, CP { name: "pure-fc-any", n: 2500 * scale }], replay.clone()), "C03", t, s, &replay);
       r.rule = format!("{}Classes: pure histories (every batch of external changes is reported to a bottom-up build before any partial top-down build) and mixed histories. Monitor: after every bottom-up build a probe session requires every known task in shuffled order: nothing may execute, outputs and resources must equal Ref, no abort; requires issued after the update in the same session count as well. In mixed histories an execution in the probe must be explained by the K1 classifier (producer last executed by a partial top-down build while changes were pending) or it is a violation; pure histories have no suppression. non-trivial = a distinct case with a bottom-up build that re-executed a completed task.", CLASS_DOC);
       match &replay { Some((c, n)) if c == "files" => { r = wf::run_files("C03", s, 0, Some(*n)); } Some(_) => {} None => r.merge(wf::run_files("C03", s, 150 * scale, None)) }
       r.rule.push_str(" File-backed slice: the same generated programs over pie's real PathBuf resource and real file checkers, bottom-up builds scheduled with the changed paths, followed by the same probe.");
@@ -92,8 +92,8 @@ pub fn run(args: &Args) -> Report {
       r
     }
     "C08" => {
-      let mut r = with_exhaustive(wf::run_classes("C08", t, s, &[CP { name: "td-any", n: 3000 * scale }, CP { name: "mixed-any", n: 3000 * scale }, CP { name: "mixed-multi", n: 2000 * scale }], replay.clone()), "C08", t, s, &replay);
-      r.rule = format!("{}Classes: top-down and mixed histories over programs whose dependency structure depends on resource values, plus the multi-checker-target mutation. Monitor: at every quiescent point the guarded store dump (nodes, edges in iteration order, edge kind, checker and stamp objects, outputs) must equal the shadow reconstructed from task-side and checker-side events, collapsed to one edge per target; every check performed must belong to a dependency of the owner's latest execution. Several declarations with different checkers on one target are reported under the K2 signature only. non-trivial = a distinct case with a session that re-executed a completed task (its recorded dependencies were replaced).", CLASS_DOC);
+      let mut r = with_exhaustive(wf::run_classes("C08", t, s, &[CP { name: "td-any", n: 3000 * scale }, CP { name: "mixed-any", n: 3000 * scale }, CP { name: "mixed-multi", n: 2000 * scale }, CP { name: "td-inj-anyp", n: 1500 * scale }, CP { name: "mixed-inj-anyp", n: 1000 * scale }], replay.clone()), "C08", t, s, &replay);
+      r.rule = format!("{}Classes: top-down and mixed histories over programs whose dependency structure depends on resource values, plus the multi-checker-target mutation, plus histories with aborted builds (injected violations and task panics: what an aborted execution recorded must not survive the task's next completed execution). Monitor: at every quiescent point the guarded store dump (nodes, edges in iteration order, edge kind, checker and stamp objects, outputs) must equal the shadow reconstructed from task-side and checker-side events, collapsed to one edge per target; every check performed must belong to a dependency of the owner's latest execution. Several declarations with different checkers on one target are reported under the K2 signature only. non-trivial = a distinct case with a session that re-executed a completed task (its recorded dependencies were replaced).", CLASS_DOC);
       r.floor("re-executions observed", r.get("re_executions") > 100);
       r
     }
